@@ -32,7 +32,7 @@ MODEL = {
     "Pet": {"kind": "union", "members": ["Dog", "Cat"]},
     "Role": {"kind": "enum", "values": {"ADMIN": 1, "USER": "u"}},
     "Date": {"kind": "scalar", "serialize": lambda v: "D:%s" % (v,)},
-    "Filter": {"kind": "input", "fields": {"a": {"type": "Int"}, "b": {"type": "[Int]"}, "c": {"type": "Int", "default": 3}}},
+    "Filter": {"kind": "input", "fields": {"a": {"type": "Int"}, "b": {"type": "[Int]"}, "c": {"type": "Int", "default": 3}, "sub": {"type": "Filter"}, "subs": {"type": "[Filter]"}}},
 }
 
 FNS = {
@@ -117,8 +117,8 @@ def build_real_schema(fail=()):
         elif k == "scalar":
             types[name] = ScalarType(name, serialize=t["serialize"], parse=lambda v: v)
         elif k == "input":
-            types[name] = InputObjectType(name, [
-                InputField(fn, ref(f["type"])(), **({"default_value": f["default"]} if "default" in f else {})) for fn, f in t["fields"].items()])
+            types[name] = InputObjectType(name, (lambda tt=t: [
+                InputField(fn, ref(f["type"])(), **({"default_value": f["default"]} if "default" in f else {})) for fn, f in tt["fields"].items()]))
     for name, t in MODEL.items():
         if t["kind"] == "interface":
             types[name] = InterfaceType(name, (lambda n=name, tt=t: fields_of(n, tt)))
